@@ -106,6 +106,11 @@ func (s *genState) term() *Expr {
 		}
 		return e
 	case k < 64:
+		if s.p.MaxRune && s.pct(12, "openrange") {
+			// "everything from here up", as in the character classes of JSON or XML grammars
+			lo := rapid.SampledFrom([]rune{'c', 0x80, 0x100, 0xE000, 0x10000}).Draw(t, "openlo")
+			return &Expr{K: KClass, Items: []Item{{lo, 0x10FFFF}}}
+		}
 		lo := rapid.SampledFrom([]rune{'a', 'b', 'c'}).Draw(t, "rlo")
 		hi := lo + rune(rapid.IntRange(0, 2).Draw(t, "rw"))
 		if hi > 'd' {
@@ -120,7 +125,7 @@ func (s *genState) term() *Expr {
 		n := rapid.IntRange(1, 3).Draw(t, "nitems")
 		e := &Expr{K: KClass}
 		for i := 0; i < n; i++ {
-			if s.p.MaxRune && s.pct(15, "edgerange") {
+			if s.p.MaxRune && s.pct(25, "edgerange") {
 				// ranges that touch the ends of the code space
 				if s.pct(30, "edgegap") {
 					// a range across the surrogate gap: D800-DFFF are no characters, whoever
